@@ -38,7 +38,9 @@ theorem ring_add_slots (r : Ring) (seq : Nat) : (r.add seq).slots.size = r.slots
     · exact ⟨rfl, rfl⟩
     · split
       · simp [clearRange_size]
-      · simp
+      · split
+        · exact ⟨rfl, rfl⟩
+        · simp
 
 theorem ring_used_le (r : Ring) : r.used ≤ r.slots.size := by
   unfold Ring.used
